@@ -32,6 +32,15 @@ def install(interp):
 
 
 @contextlib.contextmanager
+def native_env_zlib(S):
+    """native replay with the zlib *contract* stub (lengths and garbage outcomes taken from the witness)"""
+    from .models import ContractZlib
+    z = ContractZlib(S)
+    with native_env(S), mock.patch("zlib.compress", z.compress), mock.patch("zlib.decompress", z.decompress):
+        yield
+
+
+@contextlib.contextmanager
 def native_env(S=None):
     CLOCK.sleeps = 0
     with mock.patch("time.sleep", CLOCK.sleep), mock.patch("time.time", CLOCK.time), \
